@@ -538,7 +538,7 @@ func main() {
 		"seed":        seed,
 		"level":       "exploration",
 		"coverage":    cov,
-		"assumptions": spec.Assumptions,
+		"assumptions": append([]string{}, spec.Assumptions...),
 		"wall_s":      time.Since(start).Seconds(),
 		"violations":  len(violations),
 	}
